@@ -12,7 +12,7 @@ from sa.load import AnalysisError, Func, Repo, body_nodes, unparse
 from sa.loops import LoopChecker
 from sa.report import Check, Site
 from sa.sym import Lin
-from sa.symeval import CallVal, SBuf, SView, TRef
+from sa.symeval import CallVal, SBuf, SCat, SView, TRef
 
 from . import codecs
 
@@ -279,6 +279,32 @@ def reassembly(repo: Repo, chk: Check, f: Func, helpers: t.Dict[str, str]) -> No
         # ---- reply buffer
         resp = pcall.arg(0)
         frag = Lin.atom(("field", f"{hcall.result!r}.frag_len"))
+        if isinstance(resp, SCat):
+            # reply grown piece by piece: the header bytes as received, then complete transport reads, frag_len in all
+            cur = Lin(0)
+            okp = True
+            whyp = ""
+            for i, part in enumerate(resp.parts):
+                if i == 0:
+                    if same_value(part, harg) and hok:
+                        cur = hsz
+                        continue
+                    okp, whyp = False, f"the reply starts with {part!r}, not with the header bytes as they were received ({harg!r}): what is verified and parsed is not what arrived"
+                    break
+                if isinstance(part, CallVal) and part.rec.name.endswith("readexactly") and isinstance(part.rec.arg(0), Lin):
+                    cur = cur + part.rec.arg(0)
+                    continue
+                okp, whyp = False, f"reply piece {i} is {part!r}, which is not a complete transport read"
+                break
+            if okp and not (cur == frag):
+                okp, whyp = False, f"the pieces add up to {cur!r} bytes, the decoded header says frag_len"
+            chk.ob("O1", Site.of(f, pcall.node, f"{f.name}: coverage of the reply buffer"), okp, "reply = received header + complete body read(s), frag_len bytes in all" if okp else whyp)
+            a1, a2, a3 = pcall.arg(1), pcall.arg(2), pcall.arg(3)
+            rt_name = f.params[2] if len(f.params) > 2 else "resp_type"
+            eo_name = f.params[3] if len(f.params) > 3 else "encrypt_offsets"
+            ok2 = a1 is hcall.result and isinstance(a2, TRef) and a2.path == rt_name and isinstance(a3, TRef) and a3.path == eo_name
+            chk.ob("O2", Site.of(f, pcall.node), ok2, "(reply, decoded header, resp_type, encrypt_offsets) handed to _process_response" if ok2 else f"_process_response receives ({a1!r}, {a2!r}, {a3!r})")
+            continue
         rok = isinstance(resp, SBuf) and resp.size == frag
         chk.ob("O1", Site.of(f, pcall.node), rok, "reply buffer has frag_len bytes of the decoded header" if rok else f"reply buffer is {resp!r}, expected a buffer of the decoded header's frag_len bytes")
         if isinstance(resp, SBuf):
